@@ -6,7 +6,8 @@ From PJ Require Import Base.Json Base.Res Model.Msg Model.Client Model.Retry
 Import ListNotations.
 
 Inductive case :=
-| PDisp (c : dcase) (other : dobs)                 (* c carries the observation of the sync half, other that of the async half *)
+| PDisp (c : dcase) (other : dobs) (raw_same : bool)   (* c carries the observation of the sync half, other that of the async half;
+                                                          raw_same: the two documents agree to the letter, library texts included *)
 | PRetry (c : rcase) (other : robs)
 | PSeven (c : C07.case) (other : c7obs)
 | PEight (c : C08.case) (other : cres json).
@@ -24,9 +25,9 @@ Definition eight_model (c : C08.case) : cres json :=
 
 Definition check (c : case) : nat :=
   match c with
-  | PDisp dc other =>
+  | PDisp dc other raw_same =>
       verdict (DispCommon.mismatch dc || DispCommon.mismatch (with_dobs dc other))
-              (negb (dobs_eqb (let '(_, _, _, o) := dc in o) other)) true 0
+              (negb (dobs_eqb (let '(_, _, _, o) := dc in o) other && raw_same)) true 0
   | PRetry rc other =>
       verdict (RetryCommon.mismatch rc || RetryCommon.mismatch (with_robs rc other)) (negb (robs_eqb (c_obs rc) other)) true 0
   | PSeven sc other =>
@@ -39,7 +40,7 @@ Definition check (c : case) : nat :=
 Definition run (cs : list case) : list nat := map check cs.
 Definition show (c : case) :=
   match c with
-  | PDisp dc _ => (Some (DispCommon.show dc), None, None, None)
+  | PDisp dc _ _ => (Some (DispCommon.show dc), None, None, None)
   | PRetry rc _ => (None, Some (RetryCommon.model rc), None, None)
   | PSeven sc _ => (None, None, Some (seven_model sc), None)
   | PEight ec _ => (None, None, None, Some (eight_model ec))
